@@ -230,6 +230,38 @@ pub fn record_format(seed: u64, thorough: bool, path: &str) -> Value {
         out.push(ev("raw", &(raw), json!({"len": raw.len(), "ones": ones})));
         files += 2;
     }
+    // files produced by the buffered writers, finished by close() and by dropping the open writer
+    for rep in 0..(4 * reps) {
+        use simple_sds::int_vector::IntVectorWriter;
+        use simple_sds::raw_vector::{PushRaw, RawVectorWriter};
+        let w = *rng.pick(&[1usize, 7, 13, 29]);      // items must fit a TLC integer
+        let n = if rep == 0 { 0 } else { rng.range(1, 70) };
+        let items: Vec<u64> = (0..n).map(|_| rng.next() & ((1u64 << w) - 1)).collect();
+        let fname = serialize::temp_file_name("verif-fmt-writer");
+        {
+            let mut wr = IntVectorWriter::with_buf_len(&fname, w, *rng.pick(&[0usize, 3, 64])).unwrap();
+            for x in items.iter() { wr.push(*x); }
+            if rep % 2 == 0 { wr.close().unwrap(); }
+        }
+        let bytes = std::fs::read(&fname).unwrap_or_default();
+        let reload = serialize::load_from::<IntVector, _>(&fname).map(|v| v.iter().collect::<Vec<u64>>() == items && v.width() == w).unwrap_or(false);
+        out.push(json!({"e": "file", "t": "int", "elems": elems_json(&bytes), "content": {"w": w, "items": items}, "reload": reload}));
+        let _ = std::fs::remove_file(&fname);
+        let nbits = if rep == 1 { 0 } else { rng.range(1, 200) };
+        let bits: Vec<bool> = (0..nbits).map(|_| rng.chance(1, 3)).collect();
+        {
+            let mut header: Vec<u64> = Vec::new();
+            let mut wr = RawVectorWriter::with_buf_len(&fname, &mut header, *rng.pick(&[0usize, 64, 100])).unwrap();
+            for b in bits.iter() { wr.push_bit(*b); }
+            if rep % 2 == 1 { wr.close().unwrap(); }
+        }
+        let bytes = std::fs::read(&fname).unwrap_or_default();
+        let ones: Vec<usize> = (0..nbits).filter(|i| bits[*i]).collect();
+        let reload = serialize::load_from::<RawVector, _>(&fname).map(|v| v.len() == nbits && (0..nbits).all(|i| v.bit(i) == bits[i])).unwrap_or(false);
+        out.push(json!({"e": "file", "t": "raw", "elems": elems_json(&bytes), "content": {"len": nbits, "ones": ones}, "reload": reload}));
+        let _ = std::fs::remove_file(&fname);
+        files += 2;
+    }
     // skip_option / absent_option on the optional support structures of a bitvector
     for (len, runs) in contents.iter().take(10) {
         let mut b = bv::plain_raw(*len, runs);
